@@ -4,7 +4,8 @@
 P="$(realpath "$1")"; shift
 cd /repo || exit 2
 if ! git diff --quiet; then echo "/repo has uncommitted changes; refusing" >&2; exit 2; fi
-trap 'git -C /repo checkout -- . ; git -C /repo clean -fdq -- crates' EXIT
+# always restore /repo and rebuild the harness against the restored tree (otherwise the binary of the last patched build would stay behind)
+trap 'git -C /repo checkout -- . ; git -C /repo clean -fdq -- crates ; /verif/check build >/dev/null 2>&1' EXIT
 git apply "$P" || { echo "patch does not apply" >&2; exit 2; }
 cd /verif
 export VERIF_EVIDENCE_DIR=/verif/harness/target/evidence-scratch
